@@ -4,10 +4,13 @@ from checks import wire_checks
 LEVEL = "proof"
 MANIFEST = dict(
     text="Lean 4: per-class reparse theorems (parse of what write_serialization wrote gives the same view back, TLV / option list round trips by "
-         "induction) for all seven families; the whole-packet theorem l2_whole_packet_c03 (any accepted link-layer stack of any depth: "
-         "serialize, re-parse, same views up to derived fields and minimum-frame padding, second serialization a fixed point) by induction over the "
-         "stack and the generated next-protocol tables. Correspondence of parse, serialize, re-parse and second serialization for every class; "
-         "view equality is checked by the Lean oracle on the implementation's own field dumps.",
+         "induction) for all seven families, lifted by induction over the stack and the generated next-protocol tables to the whole-packet "
+         "theorem whole_packet_c03: every accepted packet of any depth made of the 53 modelled classes (explicit exclusions: PPI/PKTAP, "
+         "datagrams too long for their 16-bit length field, ICMP with extensions / non-ghost-free quotes = known findings, top-level IP with "
+         "source 0.0.0.0) serializes, re-parses with the same entry point to the same classes with the same views, and through IP/IPv6 to the "
+         "same payload byte for byte; second serialization a fixed point for link-layer stacks (l2_whole_packet_c03). Correspondence of "
+         "parse, serialize, re-parse and second serialization for every class; view equality is checked by the Lean oracle on the "
+         "implementation's own field dumps.",
     note="The theorems are about hand-written, code-shaped Lean models of 53 entry classes in seven families (link layers, IPv4 + options / AH / ESP, "
          "IPv6 + extension headers, TCP + options / UDP, ICMP / ICMPv6 + extensions, DHCP / DHCPv6 / BootP / RTP / VXLAN / ARP / STP, 802.11 / "
          "RadioTap / EAPOL; list in the evidence: modelled_classes); the tie to the C++ is differential correspondence of every line under "
